@@ -100,6 +100,11 @@ class Canon:
                 args = (args[0][2][0],) + tuple(args[1:])
             return ("call", name, args, kws, t[4])
         if k == "sub":
+            if t[1][0] == "mcall" and t[1][2] == "get" and len(t[1][3]) == 2 and not t[1][4] \
+                    and self.ip._empty_literal(t[1][3][1]):
+                # D.get(k, <empty>)[o]: a subscript of the empty default raises, so where the
+                # expression has a value it is D[k][o]
+                return self.norm(("sub", ("sub", t[1][1], t[1][3][0]), t[2]))
             b = self.norm(t[1])
             i = self.norm(t[2])
             # tensor row
